@@ -132,14 +132,19 @@ def xorW (u : U128) (n : W) : U128 := ⟨u.hi, u.lo ^^^ n⟩
 
 /-! ## shifts (count is a Go `uint`) -/
 
+/-- Go `x << n` / `x >> n` on a `uint64` with an arbitrary unsigned count: 0 once the count reaches 64 (the same
+    value as the `BitVec` shift, lemmas `shl_eq` / `shr_eq`; spelled out so that huge counts are not materialised) -/
+def shl (x : W) (n : Nat) : W := if n < 64 then x <<< n else 0#64
+def shr (x : W) (n : Nat) : W := if n < 64 then x >>> n else 0#64
+
 def leftShift (u : U128) (n : Nat) : U128 :=
   if n = 0 then u
-  else if n > 64 then ⟨u.lo <<< (n - 64), 0#64⟩
+  else if n > 64 then ⟨shl u.lo (n - 64), 0#64⟩
   else if n < 64 then ⟨u.hi <<< n ||| u.lo >>> (64 - n), u.lo <<< n⟩
   else ⟨u.lo, 0#64⟩
 def rightShift (u : U128) (n : Nat) : U128 :=
   if n = 0 then u
-  else if n > 64 then ⟨0#64, u.hi >>> (n - 64)⟩
+  else if n > 64 then ⟨0#64, shr u.hi (n - 64)⟩
   else if n < 64 then ⟨u.hi >>> n, u.lo >>> n ||| u.hi <<< (64 - n)⟩
   else ⟨0#64, u.hi⟩
 
